@@ -15,6 +15,7 @@ import (
 type ServerDeps interface {
 	SendResponse(conn net.Conn, response string)
 	GetUserDB(userID int64) (*sql.DB, error)
+	GetSelectedDB(state *models.ClientState) (*sql.DB, int64, error)
 	GetSharedDB() *sql.DB
 	GetDBManager() *db.DBManager
 	GetS3Storage() *blobstorage.S3BlobStorage
@@ -225,9 +226,9 @@ func HandleClose(deps ServerDeps, conn net.Conn, tag string, state *models.Clien
 	// we always perform the expunge operation.
 	// TODO: Add ReadOnly field to ClientState to properly handle EXAMINE
 
-	// Get user database.
+	// Get the database of the selected mailbox (user or role mailbox).
 	// RFC 3501 6.4.2: no messages are removed, and no error is given, if the mailbox was opened with EXAMINE
-	userDB, err := deps.GetUserDB(state.UserID)
+	userDB, _, err := deps.GetSelectedDB(state)
 	if err != nil || state.ReadOnly {
 		// Clear selection and return
 		state.SelectedMailboxID = 0
